@@ -31,6 +31,8 @@ void harness (void)
   got = _dbus_validate_bus_namespace ((DBusString *) &rs, 0, in_len); want = ref_bus_name_full (in_buf, in_len, 1);
 #elif VERIF_FN == 6
   got = _dbus_validate_path ((DBusString *) &rs, 0, in_len); want = ref_path (in_buf, in_len);
+#elif VERIF_FN == 7
+  got = _dbus_string_validate_utf8 ((DBusString *) &rs, 0, in_len); want = ref_utf8 (in_buf, in_len);
 #endif
   __CPROVER_assert ((got != 0) == (want != 0), "real scanner agrees with the reference recogniser");
   if (got) REACH("accept"); else REACH("reject");
